@@ -17,8 +17,8 @@ import (
 
 func init() {
 	fw.Register(&fw.Check{
-		ID: "C14",
-		Rule: "cases: (a) documents without id whose members are non-empty lists of valid keys, services and also-known-as URIs plus 0..4 further members with ordinary names (no '/', '~', quotes; not beginning with publicKey/service, which the validator reserves) and arbitrary JSON values: PatchesFromDocument -> every patch validates -> ApplyPatches({}) must reproduce the document; (b) the eight constructors on valid input: output validates, Bytes/FromBytes round trip, GetAction/GetValue agree with the content; (c) documents with a string id refused; (d) FromBytes on each action x {value member missing, value member of another action, no action, unknown action} must fail. distinct = member-set shapes, constructor names and labelled byte classes.",
+		ID:          "C14",
+		Rule:        "cases: (a) documents without id whose members are non-empty lists of valid keys, services and also-known-as URIs plus 0..4 further members with ordinary names (no '/', '~', quotes; not beginning with publicKey/service, which the validator reserves) and arbitrary JSON values: PatchesFromDocument -> every patch validates -> ApplyPatches({}) must reproduce the document; (b) the eight constructors on valid input: output validates, Bytes/FromBytes round trip, GetAction/GetValue agree with the content; (c) documents with a string id refused; (d) FromBytes on each action x {value member missing, value member of another action, no action, unknown action} must fail. distinct = member-set shapes, constructor names and labelled byte classes.",
 		Assumptions: []string{"JSON numbers compared as IEEE doubles", "harness JSON equality"},
 		Require:     []string{"doc-roundtrip", "constructors", "bytes-roundtrip", "id-refused", "bad-bytes"},
 		Run:         runC14,
@@ -141,7 +141,9 @@ func c14Constructors(c *fw.Case) {
 		ids = append(ids, id)
 	}
 	freeOps, _ := gen.RandValidJSONPatch(r, map[string]interface{}{"foo": map[string]interface{}{"a": 1}, "arr": []interface{}{1, 2}}, 3, true)
-	js := func(v interface{}) string { return string(gen.Spell(r, oracle.MustGeneric(v), gen.SpellOpts{Whitespace: true, Shuffle: true})) }
+	js := func(v interface{}) string {
+		return string(gen.Spell(r, oracle.MustGeneric(v), gen.SpellOpts{Whitespace: true, Shuffle: true}))
+	}
 	type ctor struct {
 		name, action, valueKey string
 		value                  interface{}
